@@ -46,6 +46,20 @@ check('C05',
       'TLA+ transcription of the normalisation pipeline, TLC exhaustive evaluation with property invariants, exhaustive replay into the code, trace validation',
       'DESIGN.md section 5 (C05)', 'match')
 
+DOCRUN_NOTE = ('Trusted: TLC; the statement templates and the rendering of parts to doctest text in harness/runlib.py (validated on the '
+               'unchanged tree: every predicted part structure is compared with what the real parser produced). Matching inside a want '
+               'is token equality at this level (character level: C05/C06).')
+
+check('C02',
+      'DocRun.tla models DocTest.run action by action (directive update, skip, import, compile, exec, want check against every trailing '
+      'sequence of unmatched outputs, except ladder, summary). TLC enumerates every program of <=3 (quick) / <=4 (thorough) parts over 8 body '
+      'kinds x 9 want kinds and checks that the operational outcome equals a declarative reference in which wants are defined from the '
+      'program (everything since the previous want / own output / repr / four corruptions). Every terminal state is rendered to a doctest, '
+      'run by the real DocTest.run, and verdict, exception type, failing part, executed statements, logged stdout per part, skipped parts '
+      'and the length of the unmatched buffer must equal the prediction.',
+      DOCRUN_NOTE, 'TLA+ run-loop spec vs declarative reference (TLC exhaustive), exhaustive replay of TLC terminal states into DocTest.run',
+      'DESIGN.md section 5 (C02)', 'docrun')
+
 NOT_YET = ['C01', 'C02', 'C03', 'C04', 'C05', 'C07', 'C08', 'C09', 'C10', 'C11', 'C12', 'C13', 'C14', 'C15', 'C16',
            'C17', 'C18', 'C19', 'C20']
 
@@ -66,6 +80,7 @@ def main():
             'add_only': True,
         },
         'engines': [
+            {'name': 'docrun', 'path': 'specs/DocRun.tla', 'serves_properties': ['C01', 'C02', 'C03', 'C04', 'C09', 'C11', 'C12'], 'kind_free_text': 'TLA+ spec of DocTest.run (run loop, directive state, want buffer, except ladder) with declarative reference; MC_DocRun.tla alphabets; TLC + replay harness runlib.py'},
             {'name': 'match', 'path': 'specs/Match.tla', 'serves_properties': ['C05', 'C06'], 'kind_free_text': 'TLA+ spec of output matching (normalisation pipeline, ellipsis) + MatchTrace.tla trace spec; TLC'},
         ],
         'checks': [CHECKS[k] for k in sorted(CHECKS)],
